@@ -83,7 +83,7 @@ func (osf *OSTypeFn) SetOSType(osType OSType) error {
 		osType = CurrentOSType()
 	}
 
-	if BuildFeatures()&FeatSetOSType != 0 && osType != CurrentOSType() {
+	if BuildFeatures()&FeatSetOSType == 0 && osType != CurrentOSType() {
 		return ErrSetOSType
 	}
 
